@@ -84,6 +84,32 @@ fn base_cfg(periphs: Vec<PeriphCfg>, mon: Mon, acts: Vec<Act>) -> W4Cfg {
     W4Cfg { rig: RigCfg::basic(periphs), slave_dev: vec![0; n], gc_every_visit: false, high_prio: false, acts, mon, dev_budget: 255, late_add: false }
 }
 
+/// Bus-parameter sweep: the same one- and two-peripheral worlds at every baud rate of the stack and at
+/// slot times from the builder minimum to the largest value the builder accepts. The DP master
+/// derives intervals from these parameters (Global_Control period, watchdog); arithmetic that is
+/// only right for the slot time of the repository's tests (19200 baud, 100 bit) shows here
+/// (found by two seeded changes).
+pub fn param_sweep_plans(mon: Mon, acts1: Vec<Act>, acts2: Vec<Act>, tier: Tier) -> Vec<Plan> {
+    let mut plans = vec![];
+    for baud in 0..crate::dprig::BAUDS.len() as u8 {
+        let min_slot = crate::w2::MIN_SLOT[baud as usize];
+        let slots: Vec<Option<u16>> = tier.pick(vec![None, Some(min_slot.max(1311)), Some(u16::MAX)], vec![None, Some(min_slot.max(655)), Some(min_slot.max(1311)), Some(5000), Some(32768), Some(u16::MAX)]);
+        for slot in slots {
+            for n in tier.pick(vec![1usize], vec![1, 2]) {
+                let ps = vec![PeriphCfg::simple(9, 2, 1), PeriphCfg::simple(11, 0, 2)];
+                let mut cfg = base_cfg(ps[..n].to_vec(), mon, if n == 1 { acts1.clone() } else { acts2.clone() });
+                cfg.rig.baud = baud;
+                cfg.rig.slot_bits = slot;
+                if n == 2 {
+                    cfg.dev_budget = 2;
+                }
+                plans.push(Plan { label: format!("sweep {n}p baud#{baud} slot={slot:?}"), cfg, depth: tier.pick(5, 8), max_states: tier.pick(20_000, 300_000), secs: tier.pick(60.0, 1200.0) });
+            }
+        }
+    }
+    plans
+}
+
 fn finish_mc(t: Totals, rule: &str, bounds: Value, witnesses: Vec<&'static str>, extra_evals: u64) -> ! {
     let mut ev = Evidence::default();
     ev.level = "model_checking";
@@ -413,6 +439,7 @@ pub fn run_c07(tier: Tier) -> ! {
         cfg.dev_budget = tier.pick(2, 3);
         plans.push(Plan { label: "2p".into(), cfg, depth: tier.pick(8, 14), max_states: tier.pick(100_000, 2_000_000), secs: tier.pick(60.0, 2400.0) });
     }
+    plans.extend(param_sweep_plans(Mon::C07, std_acts(1, &[0, 8, 16], true), std_acts(2, &[8], true), tier));
     let t = explore(plans, tier.pick(400.0, 14400.0), &|w| {
         if w.dead {
             return;
@@ -551,6 +578,16 @@ pub fn run_c14(tier: Tier) -> ! {
                 }
             }
         }
+    }
+    {
+        let a = |n: u8| {
+            let mut acts = vec![Act::Answer, Act::ReqLost, Act::ReplyLost, Act::NoCallback, Act::PowerCycle, Act::Malformed(8), Act::LongPause];
+            for i in 0..n {
+                acts.push(Act::UserDiag(i));
+            }
+            acts
+        };
+        plans.extend(param_sweep_plans(Mon::C14, a(1), a(2), tier));
     }
     let t = explore(plans, tier.pick(400.0, 14400.0), &|_w| {});
     finish_mc(
